@@ -70,6 +70,8 @@ type c17Seg struct {
 	Writers       [][]c17Op `json:"writers"`
 	Readers       int       `json:"readers,omitempty"`
 	Kill          c17Kill   `json:"kill"`
+	Reject        []int     `json:"reject,omitempty"`      // the k-th Append/AppendASAP calls of this process return an error without appending
+	CloseAfter    int       `json:"close_after,omitempty"` // >0: Close() is called after that many acknowledgements while the writers go on
 }
 
 type c17Case struct {
@@ -180,7 +182,13 @@ type c17Binlog struct {
 	binlog.Binlog
 	k         *c17Killer
 	committed *atomic.Int64
+	reject    map[int64]bool
+	appends   atomic.Int64
 }
+
+var errC17Reject = errors.New("c17: binlog refused the event on purpose")
+
+func (b *c17Binlog) rejected() bool { return b.reject[b.appends.Add(1)] }
 
 func (b *c17Binlog) Run(offset int64, sm []byte, cm []byte, eng binlog.Engine) error {
 	return b.Binlog.Run(offset, sm, cm, &c17Engine{Engine: eng, k: b.k, committed: b.committed})
@@ -188,6 +196,9 @@ func (b *c17Binlog) Run(offset int64, sm []byte, cm []byte, eng binlog.Engine) e
 
 func (b *c17Binlog) Append(on int64, p []byte) (int64, error) {
 	b.k.hit("append", "before")
+	if b.rejected() {
+		return on, errC17Reject
+	}
 	n, err := b.Binlog.Append(on, p)
 	b.k.hit("append", "after")
 	return n, err
@@ -195,6 +206,9 @@ func (b *c17Binlog) Append(on int64, p []byte) (int64, error) {
 
 func (b *c17Binlog) AppendASAP(on int64, p []byte) (int64, error) {
 	b.k.hit("append", "before")
+	if b.rejected() {
+		return on, errC17Reject
+	}
 	n, err := b.Binlog.AppendASAP(on, p)
 	b.k.hit("append", "after")
 	return n, err
@@ -327,7 +341,10 @@ func TestVerifC17Child(t *testing.T) {
 	}
 	inner, _ := fsbinlog.NewFsBinlog(nil, opts)
 	committed := &atomic.Int64{}
-	bl := &c17Binlog{Binlog: inner, k: killer, committed: committed}
+	bl := &c17Binlog{Binlog: inner, k: killer, committed: committed, reject: map[int64]bool{}}
+	for _, k := range plan.Seg.Reject {
+		bl.reject[int64(k)] = true
+	}
 	mode := WaitCommit
 	if plan.Seg.NoWait {
 		mode = NoWaitCommit
@@ -361,6 +378,10 @@ func TestVerifC17Child(t *testing.T) {
 
 	var wg, rwg sync.WaitGroup
 	stopReaders := make(chan struct{})
+	var acks atomic.Int64
+	var closing atomic.Bool
+	closeNow := make(chan struct{})
+	var closeOnce sync.Once
 	for r := 0; r < plan.Seg.Readers; r++ {
 		rwg.Add(1)
 		go func() {
@@ -414,6 +435,13 @@ func TestVerifC17Child(t *testing.T) {
 				case err == nil:
 					c17Emit(c17Line{T: "ack", Seq: op.Seq})
 					killer.hit("ack", "after")
+					if n := acks.Add(1); plan.Seg.CloseAfter > 0 && n >= int64(plan.Seg.CloseAfter) {
+						closeOnce.Do(func() { close(closeNow) })
+					}
+				case errors.Is(err, errC17Reject):
+					c17Emit(c17Line{T: "rejected", Seq: op.Seq})
+				case closing.Load():
+					c17Emit(c17Line{T: "raceerr", Seq: op.Seq, Msg: err.Error()}) // Do racing Close may fail
 				case op.Fail != 0 && errors.Is(err, errC17Fail):
 					c17Emit(c17Line{T: "fail", Seq: op.Seq})
 				default:
@@ -422,12 +450,23 @@ func TestVerifC17Child(t *testing.T) {
 			}
 		}(ops)
 	}
-	wg.Wait()
+	writersDone := make(chan struct{})
+	go func() { wg.Wait(); close(writersDone) }()
+	select {
+	case <-writersDone:
+	case <-closeNow: // Close while the writers are still at work
+	}
+	closing.Store(true)
 	close(stopReaders)
 	rwg.Wait()
 	cctx, cancel := context.WithTimeout(ctx, 20*time.Second)
 	defer cancel()
-	if err := eng.Close(cctx); err != nil {
+	err = eng.Close(cctx)
+	select {
+	case <-writersDone:
+	case <-time.After(3 * time.Second): // a writer stuck behind a closed engine is not this property's business
+	}
+	if err != nil {
 		c17Emit(c17Line{T: "closeerr", Msg: err.Error()})
 		os.Exit(7)
 	}
@@ -780,6 +819,8 @@ type c17Stats struct {
 	inflightAtKill, viewsChecked   int
 	tornTail, rotations, crcRecs   int
 	snapshotsBehind, snapshotsEven int
+	rejected                       int
+	knownTornTail                  int
 }
 
 func c17Prop(t vpT, c c17Case, dir string, st *c17Stats) (nontrivial bool, classes []string) {
@@ -803,6 +844,7 @@ func c17Prop(t vpT, c c17Case, dir string, st *c17Stats) (nontrivial bool, class
 		started := map[uint32]bool{}
 		finished := map[uint32]bool{}
 		done := false
+		rejected, raceErrs := 0, 0
 		var views []c17Line
 		for k := range run.lines {
 			l := run.lines[k]
@@ -819,6 +861,13 @@ func c17Prop(t vpT, c c17Case, dir string, st *c17Stats) (nontrivial bool, class
 			case "fail":
 				finished[l.Seq] = true
 				failed[l.Seq] = true
+			case "rejected": // Do returned the binlog's refusal: like a failed callback, it must leave nothing anywhere
+				finished[l.Seq] = true
+				failed[l.Seq] = true
+				rejected++
+			case "raceerr":
+				finished[l.Seq] = true
+				raceErrs++
 			case "view":
 				views = append(views, l)
 			case "done":
@@ -826,6 +875,15 @@ func c17Prop(t vpT, c c17Case, dir string, st *c17Stats) (nontrivial bool, class
 			case "harness":
 				t.Fatalf("VP-INCONCLUSIVE segment %d: child harness error: %s", i, l.Msg)
 			case "openerr":
+				if prev != nil && prev.TornTail && strings.Contains(l.Msg, "current position in file is not equal file size") {
+					// the kill tore a multi-page write(): the newest file ends inside an event and fsbinlog's writer refuses
+					// to append behind it. Listed as a known, unrepaired finding; anything else about the case was checked.
+					sig := "torn-tail-refuses-restart"
+					if vpKnownListed("C17", sig) {
+						st.knownTornTail++
+						return nontrivial, append(classes, "known-finding:"+sig)
+					}
+				}
 				t.Fatalf("segment %d: the engine does not open after the previous segment (%s): %s%s", i, c17KillName(c, i-1), l.Msg, diag())
 			case "doerr":
 				t.Fatalf("segment %d: Do of seq %d returned an unexpected error: %s%s", i, l.Seq, l.Msg, diag())
@@ -958,16 +1016,29 @@ func c17Prop(t vpT, c c17Case, dir string, st *c17Stats) (nontrivial bool, class
 			}
 		}
 		if !run.killed && done { // clean close: everything is in both
-			if !exists || len(seqs) != len(d.Events) {
+			if (!exists || len(seqs) != len(d.Events)) && seg.CloseAfter == 0 { // a write racing Close may reach the binlog after the last SQLite commit
 				t.Fatalf("segment %d: after a clean Close the database has %d rows, the binlog %d events", i, len(seqs), len(d.Events))
 			}
 			for _, ops := range seg.Writers {
 				for _, op := range ops {
-					if op.Fail == 0 && inD[op.Seq] == 0 {
+					if op.Fail == 0 && inD[op.Seq] == 0 && !failed[op.Seq] && seg.CloseAfter == 0 {
 						t.Fatalf("segment %d: seq %d was written and the engine closed cleanly, but it is not in the binlog", i, op.Seq)
 					}
 				}
 			}
+		}
+		if rejected > 0 {
+			st.rejected += rejected
+			classes = append(classes, "append-rejected")
+			if !run.killed && done {
+				classes = append(classes, "append-rejected-then-clean-close")
+			}
+		}
+		if raceErrs > 0 {
+			classes = append(classes, "do-failed-racing-close")
+		}
+		if seg.CloseAfter > 0 && done {
+			classes = append(classes, "close-while-writing")
 		}
 		prev = d
 	}
@@ -1077,6 +1148,14 @@ func c17Gen() *rapid.Generator[c17Case] {
 				totalOps += n
 				seg.Writers = append(seg.Writers, ops)
 			}
+			if rapid.IntRange(0, 2).Draw(t, "reject?") == 0 {
+				for n := rapid.IntRange(1, 2).Draw(t, "rejects"); n > 0; n-- {
+					seg.Reject = append(seg.Reject, rapid.IntRange(1, totalOps).Draw(t, "reject_k"))
+				}
+			}
+			if rapid.IntRange(0, 5).Draw(t, "close_early?") == 0 {
+				seg.CloseAfter = rapid.IntRange(1, totalOps).Draw(t, "close_after")
+			}
 			if s == nseg-1 {
 				seg.Kill = c17Kill{At: "none"}
 			} else {
@@ -1139,6 +1218,11 @@ func TestVerifC17Crash(t *testing.T) {
 			total.crcRecs += st.crcRecs
 			total.snapshotsBehind += st.snapshotsBehind
 			total.snapshotsEven += st.snapshotsEven
+			total.rejected += st.rejected
+			if st.knownTornTail > 0 {
+				total.knownTornTail += st.knownTornTail
+				ev.Known("torn-tail-refuses-restart", "SIGKILL in the middle of a multi-page write() left the newest binlog file ending inside an event; OpenEngine fails: current position in file is not equal file size")
+			}
 			for k, v := range st.killPoints {
 				total.killPoints[k] += v
 			}
@@ -1152,6 +1236,7 @@ func TestVerifC17Crash(t *testing.T) {
 		ev.Class("fault-points:killed-at:"+k, int64(v))
 	}
 	ev.Class("fault-points:kills-with-unacknowledged-write-in-flight", int64(total.inflightAtKill))
+	ev.Class("fault-points:appends-rejected", int64(total.rejected))
 	ev.Class("reader-observations-checked", int64(total.viewsChecked))
 	ev.Class("db-snapshot-behind-binlog", int64(total.snapshotsBehind))
 	ev.Class("db-snapshot-level-with-binlog", int64(total.snapshotsEven))
